@@ -47,6 +47,9 @@ def callables(step, t_off, rate=1.0):
         return (lambda t, x: (1.0 + a * (t - t_off)) * M), (lambda t: np.zeros(3))
     if via == "t2":
         return (lambda t, x: (1.0 + a * (t - t_off) ** 2) * M), (lambda t: np.zeros(3))
+    if via == "hat":
+        P = step["T"][0] / step["T"][1] / 2.0
+        return (lambda t, x: (1.0 + a * (1.0 - abs(2.0 * (((t - t_off) / P) % 1.0) - 1.0))) * M), (lambda t: np.zeros(3))
     return (lambda t, x: M), (lambda t: np.zeros(3))
 
 
@@ -138,6 +141,13 @@ def general_relations(pd, rng, ev_out, meta, count):
             # not a point - the split runs see different end positions
             tri = lambda t: 1.0 - abs(2.0 * t / 0.6 - 1.0)  # noqa: E731
             getx = lambda t: np.array([0.4 * tri(t), 0.8 * tri(t), -0.3 * tri(t)])  # noqa: E731
+        if i % 4 >= 2:
+            # a velocity gradient that is the SAME at the start, the midpoint and the end of the whole interval (and of
+            # each half) and different in between: period T / 2 triangle wave on the non-commuting part
+            hat = lambda t: 1.0 - abs(2.0 * ((t / 0.3) % 1.0) - 1.0)  # noqa: E731
+            getL = lambda t, x: M1 + hat(t) * M2 + 0.3 * x[1] * M1.T  # noqa: E731
+            if i % 4 == 3:
+                getx = lambda t: np.array([0.4 * hat(t), 0.8 * hat(t), -0.3 * hat(t)])  # noqa: E731
         F0 = np.eye(3) + rng.normal(size=(3, 3)) * 0.2
         if np.linalg.det(F0) <= 0.2:
             F0 = np.eye(3)
